@@ -323,6 +323,8 @@ VARIANTS += [
     V("rev-F39", ["C08"], H, "            nodes = tuple((1 - node) * start + node * end for node in nodes0to1)\n            allevalnodes[i * nptseval : (i + 1) * nptseval] = nodes\n", "            nodes = tuple(start + (end - start) * node for node in nodes0to1)\n            allevalnodes[i * nptseval : (i + 1) * nptseval] = nodes\n", "END-EXACT", "mul_spline_curve", "closed sample mapped by lo + (hi - lo) * t"),
     V("rev-F40", ["C08"], C, "                [pt0 @ pt1 for pt1 in other.ctrlpoints] for pt0 in self.ctrlpoints\n", "                [pt0 @ pt1 for pt0 in self.ctrlpoints] for pt1 in other.ctrlpoints\n", "AXIS-ORDER", "__matmul__", "table of point products transposed"),
     V("rev-F41", ["C05"], H, "        integrator = np.array(integrator, dtype=numbtype)\n", "        integrator = np.array(integrator)\n", "DTYPE-AGREE", "func2func", "integration weights without the accumulator's dtype"),
+    V("rev-F42", ["C17", "C08"], H, "                mult = vector.mult(knot) + raised\n", "                mult = vector.mult(knot)\n", "UNION-DEGREE", "ImmutableKnotVector.__or__", "union multiplicities not raised by the degree difference"),
+    V("twin-union-raise-inline", ["C17", "C08"], H, "                mult = vector.mult(knot) + raised\n", "                mult = vector.mult(knot) + (degree - vector.degree)\n", None, None, "degree difference added inline", twin=True),
     V("insert-divide-by-umax", ["C04"], H, "        one = knotvector[-1] - knotvector[0]\n", "        one = knotvector[-1]\n", "D", "one_knot_insert_once", "unit made from the last knot alone (0 for an interval ending at 0)", near=908),
     V("increase-in-place-kv", ["C06"], C, "        nodes = self.knotvector.knots\n        newnodes = times * nodes\n        newvector = self.knotvector + newnodes\n        oldvector = tuple(self.knotvector)\n        matrix = heavy.Operations.degree_increase(oldvector, times)\n", "        oldvector = tuple(self.knotvector)\n        matrix = heavy.Operations.degree_increase(oldvector, times)\n        newvector = KnotVector(self.knotvector)\n        newvector.degree += times\n", "SHARED-KV", "degree_increase", "the stored KnotVector object is elevated in place"),
 ]
